@@ -373,26 +373,44 @@ func colliding(c combo, a *realKey) *realKey {
 			}
 		}
 	}
-	// RSA: a fresh modulus, and the public exponent (3 octets) searched so that the tag agrees
-	k := makeRSA(c.bits, 65537)
+	// RSA: a fresh modulus, and the public exponent (3 octets) searched so that the tag agrees.  All exponents
+	// that hit the tag are congruent modulo 3, 5, 17 and 257 (divisors of 2^16-1), so a modulus may have none
+	// that is invertible: then another modulus is tried.
 	one := big.NewInt(1)
-	phi := new(big.Int).Mul(new(big.Int).Sub(k.Primes[0], one), new(big.Int).Sub(k.Primes[1], one))
-	for e := 65539; e < 1<<24; e += 2 {
-		if tagOf(256, 3, c.alg, encodePublic(&rsa.PublicKey{N: k.N, E: e})) != want {
-			continue
+	for try := 0; try < 64; try++ {
+		k := makeRSA(c.bits, 65537)
+		phi := new(big.Int).Mul(new(big.Int).Sub(k.Primes[0], one), new(big.Int).Sub(k.Primes[1], one))
+		rd := append([]byte{1, 0, 3, c.alg}, encodePublic(&rsa.PublicKey{N: k.N, E: 1 << 16})...) // exponent octets 01 00 00
+		base := 0
+		for i, b := range rd {
+			if i&1 == 0 {
+				base += int(b) << 8
+			} else {
+				base += int(b)
+			}
 		}
-		d := new(big.Int).ModInverse(big.NewInt(int64(e)), phi)
-		if d == nil {
-			continue
+		base -= 1 // the 01 of the placeholder exponent (index 5, a low octet)
+		for e := 65539; e < 1<<24; e += 2 {
+			ac := base + e>>16 + (e>>8&255)<<8 + e&255
+			if (ac+ac>>16)&0xffff != want {
+				continue
+			}
+			d := new(big.Int).ModInverse(big.NewInt(int64(e)), phi)
+			if d == nil {
+				continue
+			}
+			b := &rsa.PrivateKey{PublicKey: rsa.PublicKey{N: k.N, E: e}, D: d, Primes: k.Primes}
+			b.Precompute()
+			if err := b.Validate(); err != nil {
+				hx.Die("colliding RSA key invalid: %v", err)
+			}
+			if got := tagOf(256, 3, c.alg, encodePublic(&b.PublicKey)); got != want {
+				hx.Die("collision construction is wrong: %d, wanted %d", got, want)
+			}
+			return provided(c, b)
 		}
-		b := &rsa.PrivateKey{PublicKey: rsa.PublicKey{N: k.N, E: e}, D: d, Primes: k.Primes}
-		b.Precompute()
-		if err := b.Validate(); err != nil {
-			hx.Die("colliding RSA key invalid: %v", err)
-		}
-		return provided(c, b)
 	}
-	hx.Die("no colliding exponent found")
+	hx.Die("no colliding RSA key found: alg %d bits %d tag %d", c.alg, c.bits, want)
 	return nil
 }
 
